@@ -111,6 +111,20 @@ def enclosing_lemma(vfile, lineno):
     return "?"
 
 
+def dep_closure(vfile):
+    """the .v files of this development that vfile (transitively) imports, itself included"""
+    seen, todo = [], [vfile]
+    while todo:
+        f = todo.pop()
+        if f in seen or not os.path.exists(f): continue
+        seen.append(f)
+        txt = re.sub(r"\(\*.*?\*\)", "", open(f).read(), flags=re.S)
+        for m in re.finditer(r"From\s+LP\s+Require\s+(?:Import|Export)?\s*([^.]*)\.", txt):
+            for name in m.group(1).split():
+                todo.append(os.path.join(COQ, name + ".v"))
+    return sorted(seen)
+
+
 def proof_status(pid, regen_log=""):
     """Builds Properties_<pid>.vo (and everything it depends on) and collects obligations / axioms."""
     pf = os.path.join(COQ, f"Properties_{pid}.v")
@@ -121,7 +135,7 @@ def proof_status(pid, regen_log=""):
     thms = re.findall(r"^\s*Theorem\s+([A-Za-z0-9_']+)", src, re.M)
     st["theorems"] = thms; st["obligations"] = len(thms)
     # forbidden tokens anywhere in the development (comments are stripped first)
-    for vf in sorted(glob.glob(os.path.join(COQ, "*.v"))):
+    for vf in dep_closure(pf):
         txt = re.sub(r"\(\*.*?\*\)", "", open(vf).read(), flags=re.S)
         for m in FORBIDDEN.finditer(txt):
             st["forbidden"].append(f"{os.path.basename(vf)}: {m.group(0)}")
